@@ -155,3 +155,32 @@ Proof.
   - exact (H1 (Forall_of_map_true _ _ Hh)).
   - exact (H2 (Forall_of_map_true _ _ Hb)).
 Qed.
+
+(* [ex_real]: a slider line of a real map (resources/Within Temptation - The
+   Unforgiving (Armin) [Marathon].osu): one letter, 59 point pieces, two
+   doubled points (red anchors) that split it into three segments; outside the
+   number-free input condition (a run of 59 pieces), inside the graded
+   per-segment one with a wide margin (coordinates within +-256 of the head) *)
+Definition ex_real_lines : list str :=
+  map lit ["osu file format v14"; "[HitObjects]";
+           "256,192,2783687,6,0,B|252:203|238:234|285:241|301:236|315:230|336:212|323:182|328:171|332:161|326:145|310:125|295:132|283:107|277:112|244:105|219:108|204:131|189:147|180:169|180:169|169:197|172:220|178:254|191:280|206:310|255:317|286:330|322:338|357:307|381:282|403:250|408:216|414:197|422:176|425:150|406:108|386:57|353:37|305:22|251:26|214:22|174:41|139:77|121:113|107:146|107:146|97:176|87:233|95:284|124:325|166:371|200:383|250:410|330:406|384:383|417:348|445:311|483:242|479:162,1,1799.99994635582"]%string.
+
+Lemma ex_real_parsed :
+  lines_seg_fit ex_real_lines = false /\
+  map (fun x => (fst (fst x), snd (fst x))) (parsed_shape (bm_parsed ex_real_lines)) = [(58%nat, 26%nat)] /\
+  map (fun x => length (filter (fun b => b) (snd x))) (parsed_shape (bm_parsed ex_real_lines)) = [3%nat] /\
+  map (obj_seg_fits 8) (bm_parsed ex_real_lines) = [true] /\
+  map (obj_seg_fits 7) (bm_parsed ex_real_lines) = [false] /\
+  map obj_seg_fits_some (bm_parsed ex_real_lines) = [true] /\
+  map obj_seg_fits_some (ho_parsed ex_real_lines) = [true].
+Proof. vm_compute. repeat split; reflexivity. Qed.
+
+Lemma ex_real_decodes lm : ThetaLoop.atan2_in_range lm ->
+  (exists hv, decode_hit_objects (dist_of_curve lm) ex_real_lines = Done hv) /\
+  (exists bv, decode_beatmap (dist_of_curve lm) ex_real_lines = Done bv).
+Proof.
+  intros Hlm. destruct ex_real_parsed as (_ & _ & _ & _ & _ & Hb & Hh).
+  destruct (decode_terminates_segments_graded lm Hlm ex_real_lines) as [H1 H2]. split.
+  - exact (H1 (Forall_of_map_true _ _ Hh)).
+  - exact (H2 (Forall_of_map_true _ _ Hb)).
+Qed.
